@@ -376,8 +376,12 @@ class Memory(object):
                        ex.model())
                 raise PathEnd()
             inside = z3.And(z3.UGE(addr, r.base), z3.ULE(addr, r.base + r.size - n))
+            node_before = ex.node
             if ex.decide(inside):
                 break
+            if ex.node is node_before:
+                node_before.cval = None
+                ex._model = None
             tries += 1
             if tries > 8:
                 raise Unsupported('symbolic pointer may point into more than 8 regions')
@@ -629,8 +633,14 @@ class Executor(object):
                 if m is None:
                     raise PathEnd()
                 c = self.node.cval = m.eval(v, model_completion=True).as_long()
+            node_before = self.node
             if self.decide(v == c):
                 return c
+            if self.node is node_before:
+                # the answer came from the path condition (no tree node was consumed): this
+                # candidate is already excluded, pick another one from a fresh model
+                node_before.cval = None
+                self._model = None
             seen += 1
             if seen > limit:
                 raise UnwindBound('more than %d concrete values for %s' % (limit, what))
